@@ -336,7 +336,59 @@ pub fn gen_c06(tier: &str, seed: u64) -> Vec<Vec<String>> {
 pub fn gen_c07(tier: &str, seed: u64) -> Vec<Vec<String>> {
     gen_with(Opts { prop: "C07", size: true, age: true, force_rot: true, restarts: 2, cleanup: true, faults: false, ext: false, modes: false, max_ops: 40, namings: ALL, foreign: false, exist: false }, tier, seed, 500, 6000)
 }
+/// raw byte chunks through `ArcFileLogWriter: io::Write` under every write mode
+fn gen_c15_chunks(tier: &str, seed: u64) -> Vec<Vec<String>> {
+    let mut root = Rng::new(seed ^ 0xC15C);
+    let mut cases = Vec::new();
+    for k in 0..n_cases(tier, 200, 3000) {
+        let mut r = root.fork();
+        let mut c = vec![format!("CASE flw C15 c{k}")];
+        let naming = *r.pick(&NAMINGS);
+        let (spec, has_suffix) = gen_spec(&mut r, naming);
+        c.push(spec);
+        let n: u64 = *r.pick(&[0, 7, 64]);
+        let rot = if r.chance(1, 2) { None } else { Some(format!("{n};_;{naming};never")) };
+        let (mode, cap, is_async) = match r.below(5) {
+            0 => ("direct".to_string(), None, false),
+            1 => { let cc = *r.pick(&[1u64, 7, 64, 8192]); (format!("buf:{cc}"), Some(cc), false) }
+            2 => { let cc = *r.pick(&[1u64, 7, 64, 8192]); (format!("bufflush:{cc}"), Some(cc), false) }
+            _ => (format!("async:{}:{}", r.pick(&[1u64, 2, 50]), r.pick(&[0u64, 1, 10, 200])), None, true),
+        };
+        c.push(format!("MODE {mode}"));
+        c.push(format!("CFG {}", cfg_line(&rot, false, cap, false, has_suffix)));
+        let now = Clock::new(&mut r).now();
+        for i in 0..r.range(2, 30) {
+            let chunk: Vec<u8> = match r.below(7) {
+                0 => vec![],
+                1 => vec![r.below(256) as u8],                        // single bytes of every value
+                2 => b"no line ending".to_vec(),
+                3 => (0..cap.unwrap_or(100).min(500) + 5).map(|j| (j % 251) as u8).collect(), // larger than the buffer
+                4 => vec![b'\n'],
+                _ => (0..r.range(1, 40)).map(|_| r.below(256) as u8).collect(),
+            };
+            // in async mode the one-byte chunks "F" and "S" are the in-band control messages
+            // (known finding C15-async-control-chunks, directed corpus case)
+            let chunk = if is_async && (chunk == b"F" || chunk == b"S") { vec![b'f'] } else { chunk };
+            c.push(format!("WRAW {} {now} -", hex(&chunk)));
+            if !is_async && r.chance(1, 6) { c.push("FLUSH".into()); c.push("READ".into()); }
+            let _ = i;
+        }
+        c.push("SHUT".into());
+        c.push("READ".into());
+        c.push("PARTS".into());
+        c.push("END".into());
+        cases.push(c);
+    }
+    cases
+}
+
 pub fn gen_c15(tier: &str, seed: u64) -> Vec<Vec<String>> {
+    let mut v = gen_c15_chunks(tier, seed);
+    v.extend(gen_c15_records(tier, seed));
+    v
+}
+
+fn gen_c15_records(tier: &str, seed: u64) -> Vec<Vec<String>> {
     gen_with(Opts { prop: "C15", size: true, age: false, force_rot: true, restarts: 0, cleanup: false, faults: false, ext: false, modes: true, max_ops: 40, namings: ALL, foreign: false, exist: false }, tier, seed, 500, 6000)
 }
 pub fn gen_c18(tier: &str, seed: u64) -> Vec<Vec<String>> {
